@@ -26,6 +26,7 @@ PROPS["C05"] = dict(
     units=[
         dict(name="everyk", run="^TestC05EveryK$", shards=1, timeout=(300, 900)),
         dict(name="rapid", run="^TestC05Rapid$", checks=(6, 30), shards=(2, 12), timeout=(400, 1800)),
+        dict(name="rapid_oldtimers", run="^TestC05Rapid$", checks=(0, 20), shards=(1, 6), timeout=(400, 1800), env={"GODEBUG": "asynctimerchan=1"}, enabled=(False, True)),
         dict(name="multi", run="^TestC05Multi$", checks=(8, 40), shards=(2, 8), timeout=(400, 1800), shrinktime="20s"),
     ],
 )
